@@ -8,7 +8,7 @@
 (* expected results are the sequential meaning Expected() of Iter.tla,     *)
 (* which MC_Iter ties to the handshake model (ResultsOK).                  *)
 (***************************************************************************)
-EXTENDS Iter, Json, IOUtils
+EXTENDS Iter, Json, IOUtils, FiniteSets
 
 VARIABLE l
 Trace == ndJsonDeserialize(IOEnv.TRACE)
@@ -19,12 +19,19 @@ Mis(cat, ev) == PrintT(<<"MISMATCH", l, cat>>)
                                        refs |-> <<ev.refs0, ev.refs1>>]>>)
 
 KeyOf(ev, p) == IF p = 0 THEN 0 ELSE IF ev.dir = "asc" THEN p ELSE ev.n - p + 1
-Want(ev) == LET e == Expected(ev.n, ev.word) IN [i \in DOMAIN e |-> KeyOf(ev, e[i])]
+\* a visit that ended with an I/O error is, for the consumer, a shorter one:
+\* the items delivered before the error, then false
+Delivered(ev) == Cardinality({i \in DOMAIN ev.res : ev.res[i] # 0})
+EffN(ev) == IF ev.err THEN Delivered(ev) ELSE ev.n
+Want(ev) == LET e == Expected(EffN(ev), ev.word) IN [i \in DOMAIN e |-> KeyOf(ev, e[i])]
 
 StepWord(ev) ==
   IF ev.panic THEN Mis("C18:panic", ev)
   ELSE IF ev.hang THEN Mis("C18:hang", ev)
+  ELSE IF ev.err /\ ~ev.faulted THEN Mis("C18:error-without-fault", ev)
   ELSE IF ev.res # Want(ev) THEN Mis("C18:next-results", ev)
+  \* Err() is set exactly when the consumer drove the visit into its (failing) end
+  ELSE IF ev.err /\ ~ReachesEnd(EffN(ev), ev.word) THEN Mis("C18:error-not-reached", ev)
   ELSE IF ~ev.exited THEN Mis("C18:producer-did-not-exit", ev)
   ELSE IF ev.refs1 # ev.refs0 THEN Mis("C18:pin-not-released", ev)
   ELSE IF ev.goroutines > 0 THEN Mis("C18:goroutine-leak", ev)
